@@ -5,10 +5,12 @@ sys.path.insert(0, "/verif/lib")
 CHECKS = {}
 NOT_APPLICABLE = {}
 HOOK_COMMITS = []
+# only checks the coordinator has integrated and run on the unchanged tree are claimed
+ENABLED = set(open(os.path.dirname(__file__) + "/enabled.txt").read().split())
 for f in sorted(glob.glob(os.path.dirname(__file__) + "/c[0-9][0-9].py")):
     name = os.path.basename(f)[:-3]
     m = importlib.import_module(name)
-    if hasattr(m, "REG"):
+    if hasattr(m, "REG") and name.upper() in ENABLED:
         CHECKS[name.upper()] = m.REG
 hc = os.path.dirname(__file__) + "/../hook_commits.txt"
 if os.path.exists(hc):
